@@ -7,7 +7,8 @@ reactor, no socket, no thread, no clock.
 
 Harness configuration (none of it is the subject of C11/C13/C14):
   * authentication is ANONYMOUS only (a ClientAuthenticator subclass with preference=[b'ANONYMOUS'])
-    and `txdbus.protocol._is_linux` is False (no SO_PEERCRED on a fake transport);
+    and the bus side finds no peer credentials to trip over (`no_peer_credentials`: the private switch
+    `txdbus.protocol._is_linux` when it exists, and a `socket` on the fake transports that answers getsockopt);
   * every peer is its own *process* as far as `DBusMessage._nextSerial` is concerned: that counter is a
     class attribute (one per Python process); `Net` keeps one counter per peer and swaps it in around
     every entry into that peer's code (`as_peer`), so that serial numbers of different clients collide
@@ -36,10 +37,30 @@ import struct
 BUS = 'bus'
 
 
-def _mods():
+def no_peer_credentials():
+    """The bus side reads SO_PEERCRED from `transport.socket` on Linux.  Fast path: the module switch
+    `txdbus.protocol._is_linux` (a private name: when it is gone nothing is set); in either case the fake transports
+    carry a `socket` whose getsockopt answers like a UNIX socket would (`FakeSocket`), so the handshake works whatever
+    the switch is called."""
     import txdbus.protocol
+    if isinstance(getattr(txdbus.protocol, '_is_linux', None), bool):
+        txdbus.protocol._is_linux = False
+
+
+class FakeSocket:
+    """Enough of a connected UNIX socket for the credential read of the bus side (pid, uid, gid of this process)."""
+
+    def getsockopt(self, level, option, buflen=0):
+        import os
+        return struct.pack('3i', os.getpid(), os.geteuid(), os.getegid())
+
+    def fileno(self):
+        return -1
+
+
+def _mods():
     from txdbus import authentication, bus, client, message
-    txdbus.protocol._is_linux = False
+    no_peer_credentials()
     return authentication, bus, client, message
 
 
@@ -65,6 +86,7 @@ def first_msg_len(buf):
 
 class FakeTransport:
     disconnecting = False
+    socket = FakeSocket()
 
     def __init__(self, out_pipe, net=None, who=None, proto=None, big_endian=False):
         self.out = out_pipe
@@ -151,6 +173,14 @@ class Net:
     def __init__(self, per_process_serials=True):
         authentication, bus, client, message = _mods()
         self._message = message
+        self.notes = []            # what the harness could not reach in this tree (advisory, never a finding)
+        # the process-wide serial counter (DBusMessage._nextSerial unless renamed) is located by behaviour
+        from harness import c03_probe
+        self._ctr = c03_probe.serial_counter(message)
+        self._fwd = c03_probe.forward_call(message)
+        if per_process_serials and self._ctr is None:
+            per_process_serials = False
+            self.notes.append('the serial counter of DBusMessage could not be located: all peers share one counter')
         self.per_process_serials = per_process_serials
         self.serials = {BUS: 1}
         self._cur = None
@@ -187,20 +217,20 @@ class Net:
         if not self.per_process_serials:
             yield
             return
-        M = self._message.DBusMessage
+        owner, attr = self._ctr
         I = self._iface_cls
-        prev, saved = self._cur, M._nextSerial
+        prev, saved = self._cur, getattr(owner, attr)
         if prev is not None:
             self.serials[prev] = saved
         self._cur = who
-        M._nextSerial = self.serials.setdefault(who, 1)
+        setattr(owner, attr, self.serials.setdefault(who, 1))
         I.knownInterfaces = self.known.setdefault(who, dict(self._known_base))
         try:
             yield
         finally:
-            self.serials[who] = M._nextSerial
+            self.serials[who] = getattr(owner, attr)
             self._cur = prev
-            M._nextSerial = self.serials[prev] if prev is not None else saved
+            setattr(owner, attr, self.serials[prev] if prev is not None else saved)
             I.knownInterfaces = self.known[prev] if prev is not None else self._known_outside
 
     def known_of(self, who):
@@ -253,11 +283,17 @@ class Net:
                 back = marshal.unmarshal(m.signature, body, 0, False)[1]
                 if repr(_shape(back)) != repr(_shape(m.body)):
                     return raw
+            if self._fwd is None:
+                if not getattr(self, '_noted_fwd', False):
+                    self._noted_fwd = True
+                    self.notes.append('the re-marshal entry point of DBusMessage could not be located: big-endian peers '
+                                      'write little-endian messages in this run')
+                return raw
             m.endian = ord('B')
-            M = message.DBusMessage
-            keep = M._nextSerial
-            m._marshal(False, rawBody=body)
-            M._nextSerial = keep
+            keep = getattr(*self._ctr) if self._ctr else None
+            getattr(m, self._fwd[0])(**{self._fwd[1]: False, self._fwd[2]: body})
+            if self._ctr:
+                setattr(self._ctr[0], self._ctr[1], keep)
             again = message.parseMessage(m.rawMessage, [])
             if msg_summary_key(again) != msg_summary_key(message.parseMessage(raw, [])):
                 return raw
